@@ -22,6 +22,8 @@ type sendScenario struct {
 	Sizes []int  `json:"sizes"` // encoded payload sizes: an envelope is 5 + size bytes
 	Cut   int    `json:"cut"`
 	Fault string `json:"fault"` // err | ctxc | ctxd
+	// Poison: index (1-based) of a message the client's codec refuses to marshal, 0 = none
+	Poison int `json:"poison"`
 }
 
 func init() { families["sendside"] = runSendSide }
@@ -78,8 +80,14 @@ func runSendSide(raw json.RawMessage, seed int64, rec *Rec) {
 	mctx := &manualCtx{Context: context.Background(), done: make(chan struct{}), deadline: s.Fault == "ctxd"}
 	tr := &faultyHTTP{s: &s, mctx: mctx, done: make(chan struct{})}
 	copts := append(clientProtoOpts(s.Proto), connect.WithInterceptors(connLogger{rec: rec}))
+	if s.Poison > 0 {
+		copts = append(copts, connect.WithCodec(verifCodec{}))
+	}
 	client := connect.NewClient[BV, BV](tr, "http://verif.test/verif.v1.Svc/Method", copts...)
 	msg := func(i int) *BV {
+		if i+1 == s.Poison {
+			return &BV{Value: poisonValue}
+		}
 		v := make([]byte, valueForEncodedLen(s.Sizes[i]))
 		v[0] = byte(i + 1)
 		return &BV{Value: v}
